@@ -46,12 +46,16 @@ static int ndims(int tier, vnacal_type_t t)
     return is16(t) ? 4 : 5;
 }
 
+/* thorough: every error-network family member and both parameter kinds */
+static int nnetv(int tier) { return tier ? 3 : 1; }
+static int nkv(int tier) { return tier ? 2 : 1; }
+
 static long count(int tier)
 {
     long n = 0;
     for (int t = 0; t < 8; ++t)
 	n += ndims(tier, types[t]);
-    return n * 2 /*recipe*/ * K_NKIND;
+    return n * 2 /*recipe*/ * K_NKIND * nnetv(tier) * nkv(tier);
 }
 
 typedef struct {
@@ -249,6 +253,8 @@ static void run(int tier, long idx, vf_result *r)
     static applied_t A, B;
     int kind = vf_digit(&idx, K_NKIND);
     int recipe = vf_digit(&idx, 2);
+    int netv = tier ? vf_digit(&idx, 3) + 1 : 2;	/* 1, 2, 3 */
+    int kv = tier ? vf_digit(&idx, 2) : 0;
     int t;
     for (t = 0; t < 8; ++t) {
 	int nd = ndims(tier, types[t]);
@@ -265,13 +271,14 @@ static void run(int tier, long idx, vf_result *r)
 
     g_worst = 0;
     g_pairs = 0;
-    vf_desc(r, "%s %dx%d recipe %d relation %s", tname, rows, cols, recipe,
+    vf_desc(r, "%s %dx%d recipe %d network %d %s parameters relation %s",
+	    tname, rows, cols, recipe, netv, kv ? "vector" : "scalar",
 	    kname[kind]);
     unsigned long mark = vf_exec_begin();
 
     memset(&base, 0, sizeof(base));
-    cs_make_vna(&base.vna, types[t], rows, cols, nf, 2);
-    if (cs_recipe(&base, recipe, 0, 0, 0, 0) != 0) {
+    cs_make_vna(&base.vna, types[t], rows, cols, nf, netv);
+    if (cs_recipe(&base, recipe, 0, 0, 0, kv) != 0) {
 	vf_outcome(r, "no-such-recipe");
 	goto done;
     }
@@ -291,7 +298,7 @@ static void run(int tier, long idx, vf_result *r)
 	for (int ev = 1; ev <= 2; ++ev)
 	    for (int pv = 0; pv <= 1; ++pv) {
 		var = base;
-		if (cs_recipe(&var, recipe, ev, 0, pv, 0) != 0) continue;
+		if (cs_recipe(&var, recipe, ev, 0, pv, kv) != 0) continue;
 		var.noise = noise;
 		run_once(&var, 0, 0, 0, &B, r);
 		snprintf(what, sizeof(what), "entry variant %d, standard "
@@ -300,7 +307,7 @@ static void run(int tier, long idx, vf_result *r)
 	    }
 	/* port order alone, native entry points */
 	var = base;
-	cs_recipe(&var, recipe, 0, 0, 1, 0);
+	cs_recipe(&var, recipe, 0, 0, 1, kv);
 	var.noise = noise;
 	run_once(&var, 0, 0, 0, &B, r);
 	compare(r, "entry", tname, &A, &B, P, "native entry points, "
@@ -317,7 +324,7 @@ static void run(int tier, long idx, vf_result *r)
 	for (int av = 1; av <= 3; ++av)
 	    for (int pv = 0; pv <= 1; ++pv) {
 		var = base;
-		cs_recipe(&var, recipe, 0, av, pv, 0);
+		cs_recipe(&var, recipe, 0, av, pv, kv);
 		var.noise = base.noise;
 		run_once(&var, 0, 0, 1, &B, r);
 		snprintf(what, sizeof(what), "measurement matrices %s%s "
@@ -448,7 +455,7 @@ static void run(int tier, long idx, vf_result *r)
 	    /* same physical instrument: take E12's networks verbatim */
 	    var.vna = base.vna;
 	    var.vna.type = VNACAL_UE14;
-	    cs_recipe(&var, recipe, 0, 0, 0, 0);
+	    cs_recipe(&var, recipe, 0, 0, 0, kv);
 	    var.noise = noise;
 	    var.ab = ab;
 	    run_once(&var, 0, 0, 0, &B, r);
